@@ -69,7 +69,8 @@ def shard(traces, max_events=400000):
     out, cur, n = [], [], 0
     for t in traces:
         k = len(t.get("ev", ())) + 1
-        if cur and n + k > max_events and not cur[-1].get("sib"):
+        same_group = cur and t.get("grp") is not None and t.get("grp") == cur[-1].get("grp")
+        if cur and n + k > max_events and not cur[-1].get("sib") and not same_group:
             out.append(cur)
             cur, n = [], 0
         cur.append(t)
